@@ -3,7 +3,7 @@
 import json, os, shutil, subprocess, sys, tempfile
 from concurrent.futures import ThreadPoolExecutor
 VERIF = os.path.dirname(os.path.dirname(os.path.abspath(__file__)))
-ALL = ["C01", "C02", "C03", "C04", "C05", "C06", "C07", "C08", "C09", "C10", "C11", "C12", "C13", "C14", "C15", "C16"]
+ALL = ["C01", "C02", "C03", "C04", "C05", "C06", "C07", "C08", "C09", "C10", "C11", "C12", "C13", "C15", "C16"]
 
 
 def one(name):
@@ -41,7 +41,8 @@ with ThreadPoolExecutor(max_workers=6) as ex:
         m["rules"] = det
         json.dump(m, open(mp, "w"), indent=1)
         own = m["property"] in det
-        if not own:
+        na = m["property"] not in ALL       # seeded against a property that is not claimed (C14)
+        if not own and not (na and det):
             bad += 1
-        print("%-10s target %s %-8s also: %s" % (name, m["property"], "DETECTED" if own else "MISSED", ",".join(k for k in sorted(det) if k != m["property"])))
+        print("%-10s target %s %-8s also: %s" % (name, m["property"], "DETECTED" if own else ("n/a" if na else "MISSED"), ",".join(k for k in sorted(det) if k != m["property"])))
 print("missed by own property:", bad)
